@@ -64,6 +64,8 @@ pub enum NExtra {
     AttrTable(Vec<u8>),
     Generations(i16),
     Format(i16),
+    /// FORMAT followed by a MASK list and ENDMASKS (filtered format)
+    FormatFiltered(i16, Vec<Vec<u8>>),
 }
 #[derive(Clone, Debug, PartialEq)]
 pub struct NLib {
@@ -279,6 +281,13 @@ pub fn to_records(lib: &NLib) -> Result<Vec<Rec>, String> {
             NExtra::AttrTable(s) => out.push(r_str(ATTRTABLE, s)),
             NExtra::Generations(v) => out.push(r_i16s(GENERATIONS, &[*v])),
             NExtra::Format(v) => out.push(r_i16s(FORMAT, &[*v])),
+            NExtra::FormatFiltered(v, masks) => {
+                out.push(r_i16s(FORMAT, &[*v]));
+                for m in masks {
+                    out.push(r_str(0x37, m));
+                }
+                out.push(r_none(0x38));
+            }
             _ => {}
         }
     }
@@ -579,7 +588,17 @@ pub fn decode(recs: &[Rec], probes: &mut DecodeProbes) -> Result<NLib, String> {
         extras.push(NExtra::Generations(i16s(r)[0]));
     }
     if let Some(r) = p.opt(FORMAT)? {
-        extras.push(NExtra::Format(i16s(r)[0]));
+        let f = i16s(r)[0];
+        if p.peek() == Some(0x37) {
+            let mut masks = Vec::new();
+            while p.peek() == Some(0x37) {
+                masks.push(strbytes(p.take(0x37, "MASK")?));
+            }
+            p.take(0x38, "ENDMASKS")?;
+            extras.push(NExtra::FormatFiltered(f, masks));
+        } else {
+            extras.push(NExtra::Format(f));
+        }
     }
     let u = reals(p.take(UNITS, "UNITS")?);
     let mut structs = Vec::new();
